@@ -155,6 +155,33 @@ def make_extra(name):
     return Extra
 
 
+def exercise_conventions(datasets) -> None:
+    """Legitimate uses of the convention classes that must leave detection untouched."""
+    from emsarray.conventions.arakawa_c import ArakawaC
+    from emsarray.conventions.grid import CFGrid1D, CFGrid2D
+    from emsarray.conventions.shoc import ShocSimple, ShocStandard
+    from emsarray.conventions.ugrid import UGrid
+    shoc_names = {'face': ('y_centre', 'x_centre'), 'left': ('y_left', 'x_left'),
+                  'back': ('y_back', 'x_back'), 'node': ('y_grid', 'x_grid')}
+    uses = [
+        lambda: CFGrid1D(datasets['cf1d'].copy(), latitude='lat', longitude='lon').polygons,
+        lambda: CFGrid2D(datasets['cf2d'].copy(), latitude='lat', longitude='lon').polygons,
+        lambda: ShocSimple(datasets['shoc_simple'].copy()).polygons,
+        lambda: ShocStandard(datasets['shoc_standard'].copy()).polygons,
+        lambda: ArakawaC(datasets['shoc_standard'].copy(), coordinate_names=shoc_names).polygons,
+        lambda: ArakawaC(datasets['shoc_standard'].copy(), coordinate_names={
+            'face': ('y_centre', 'x_centre'), 'left': ('y_left', 'x_left'), 'back': ('y_back', 'x_back'),
+            'node': ('y_grid', 'x_grid')}).grid_size,
+        lambda: UGrid(datasets['ugrid'].copy()).polygons,
+        lambda: CFGrid1D(datasets['ugrid'].copy(), latitude='Mesh2_node_y', longitude='Mesh2_node_x').grid_size,
+    ]
+    for use in uses:
+        try:
+            use()
+        except Exception:  # noqa: BLE001
+            pass
+
+
 def detect_in_child(order) -> dict:
     """Register the extras in this order in a forked child and report what is detected."""
     read_fd, write_fd = os.pipe()
@@ -184,6 +211,15 @@ def detect_in_child(order) -> dict:
                 except Exception as err:  # noqa: BLE001
                     entry['accessor'] = f'raised {type(err).__name__}: {err}'
                 report[key] = entry
+            # detection must not depend on what the process did before: use every convention class by
+            # hand (the documented constructors with explicit coordinate names), then detect again
+            exercise_conventions(detection_datasets())
+            for key, ds in detection_datasets().items():
+                try:
+                    cls = get_dataset_convention(ds)
+                    report[key]['after_use'] = None if cls is None else cls.__name__
+                except Exception as err:  # noqa: BLE001
+                    report[key]['after_use'] = f'raised {type(err).__name__}: {err}'
             with os.fdopen(write_fd, 'w') as f:
                 json.dump(report, f)
             status = 0
@@ -211,6 +247,8 @@ def run_detect(case, rec):
         which = 'near-miss' if '-' in key or key == 'empty' else 'valid'
         rec.check(got['first'] == want, f"{fp}/{which}-wrong-convention", f"{key} with extras registered {order}", want, got['first'])
         rec.check(got['second'] == got['first'], f"{fp}/unstable", f"{key}: second detection differs", got['first'], got['second'])
+        rec.check(got.get('after_use') == want, f"{fp}/depends-on-process-history",
+                  f"{key} with extras {order}: detection after the convention classes were used by hand", want, got.get('after_use'))
         if want is None:
             rec.check(got['accessor'] == 'RuntimeError', f"{fp}/unmatched-not-refused", f"{key}: accessor on a dataset nothing matches",
                       'RuntimeError', got['accessor'])
